@@ -22,6 +22,7 @@ import (
 	"k8s.io/apimachinery/pkg/runtime/schema"
 	"k8s.io/apimachinery/pkg/types"
 
+	xpv1 "github.com/crossplane/crossplane-runtime/apis/common/v1"
 	"github.com/crossplane/crossplane-runtime/pkg/errors"
 	"github.com/crossplane/crossplane-runtime/pkg/resource"
 	"github.com/crossplane/crossplane-runtime/pkg/resource/unstructured/composite"
@@ -47,6 +48,7 @@ type tplSpec struct {
 	chain      []v1.Transform
 	hasConvert bool // the required patch converts its source to int64
 	usesSet    bool
+	keepTags   bool // its tags patch carries mergeOptions.keepMapValues
 }
 
 func valueChain(r *rand.Rand, x int) []v1.Transform {
@@ -103,6 +105,14 @@ func runComposerCase(c sink, name string, r *rand.Rand, st stats) {
 		} else {
 			ps = append([]v1.Patch{reqP}, ps...)
 		}
+		// every template copies the XR's tags map; some with the keepMapValues merge option, which
+		// is that template's own business only
+		t.keepTags = chance(r, 0.3)
+		tagsP := v1.Patch{Type: v1.PatchTypeFromCompositeFieldPath, FromFieldPath: ptrTo("spec.params.tags"), ToFieldPath: ptrTo("spec.forProvider.tags")}
+		if t.keepTags {
+			tagsP.Policy = &v1.PatchPolicy{MergeOptions: &xpv1.MergeOptions{KeepMapValues: ptrTo(true)}}
+		}
+		ps = append(ps, tagsP)
 		if chance(r, 0.4) {
 			ps = append(ps, v1.Patch{Type: v1.PatchTypeToCompositeFieldPath, FromFieldPath: ptrTo("status.atProvider.id"), ToFieldPath: ptrTo(fmt.Sprintf("status.ids.r%d", j))})
 		}
@@ -185,7 +195,7 @@ func runComposerCase(c sink, name string, r *rand.Rand, st stats) {
 			c.Inconclusive("harness: cannot read XR: " + err.Error())
 			return
 		}
-		params := map[string]any{"region": pick(r, []string{"eu-1", "us-2", "ap-3"})}
+		params := map[string]any{"region": pick(r, []string{"eu-1", "us-2", "ap-3"}), "tags": map[string]any{"env": fmt.Sprintf("env-round-%d", round), "team": "payments"}}
 		mode := make([]string, k) // why template j cannot be rendered ("" = can)
 		for j, t := range tpls {
 			switch x := r.IntN(100); {
@@ -331,6 +341,19 @@ func runComposerCase(c sink, name string, r *rand.Rand, st stats) {
 				x["resourceRefs"] = refs
 				viol("composer:rendered-resource-not-in-store", "the XR's reference for a rendered template does not lead to a stored resource", x)
 				break
+			}
+			// a template without merge options of its own carries the XR's current tags, whatever the
+			// policies of the templates before it
+			if !t.keepTags {
+				gotEnv, _, _ := unstructured.NestedString(obj, "spec", "forProvider", "tags", "env")
+				st.inc("composer_checked_tags")
+				if wantEnv := fmt.Sprintf("env-round-%d", round); gotEnv != wantEnv {
+					x := wit()
+					x["template"] = t.name
+					x["want"], x["got"] = wantEnv, gotEnv
+					viol("composer:merge-options-of-another-template-applied", "a template without merge options did not propagate the XR's changed map value to its existing resource", x)
+					break
+				}
 			}
 			// the documented value of the value patch
 			want := any("from-base")
